@@ -28,6 +28,23 @@ func extractPipeline() {
 		last = i
 	}
 	s.boolean("stagesWiredInOrder", ok)
+	// capacities: every stage channel is buffered with the number of workers; the reactor gets as many tokens; every stage
+	// starts that many workers (Model/Flow.lean: tokens = cap = workers >= 1)
+	plAll := strings.ReplaceAll(src(fn("internal/pkg/controler/pipeline.go", "startPipeline")), " ", "")
+	s.boolean("stageChannelsBufferedWithWorkers", strings.Count(plAll, ":=makeStageChannel(config.Get().WorkersCount)") == 6 &&
+		strings.Count(plAll, "makeStageChannel(") == 6)
+	mk := strings.ReplaceAll(src(fn("internal/pkg/controler/channels.go", "makeStageChannel")), " ", "")
+	s.boolean("makeStageChannelUsesItsSize", strings.Contains(mk, "parsedSize=bufferSize[0]") && strings.Contains(mk, "ch:=make(chan*models.Item,parsedSize)") && strings.HasSuffix(mk, "returnch}"))
+	s.boolean("reactorTokensAreWorkers", strings.Contains(plAll, "reactor.Start(config.Get().WorkersCount,reactorOutputChan)"))
+	nw := 0
+	for _, f := range []struct{ file, fn string }{{"internal/pkg/preprocessor/preprocessor.go", "Start"}, {"internal/pkg/archiver/archiver.go", "Start"},
+		{"internal/pkg/postprocessor/postprocessor.go", "Start"}, {"internal/pkg/finisher/finisher.go", "Start"}} {
+		st := strings.ReplaceAll(src(fn(f.file, f.fn)), " ", "")
+		if strings.Contains(st, "fori:=0;i<config.Get().WorkersCount;i++{") {
+			nw++
+		}
+	}
+	s.boolean("everyStageStartsWorkersCountWorkers", nw == 4)
 	s.boolean("sourceGetsFinisherChans", strings.Contains(pl, "hq.Start(finisherFinishChan,finisherProduceChan)") &&
 		strings.Contains(pl, "lq.Start(finisherFinishChan,finisherProduceChan)"))
 	sp := strings.ReplaceAll(src(fn("internal/pkg/controler/pipeline.go", "stopPipeline")), " ", "")
